@@ -159,6 +159,8 @@ impl<T: ?Sized> RwLock<T> {
             }
             // else the Poisoned case would be covered by the RwLockReadGuard::new()
         }
+        #[cfg(may_verif)]
+        crate::verif::label("rwlock.read.counting", self as *const _ as *const u8 as usize);
         *r += 1;
         RwLockReadGuard::new(self)
     }
